@@ -19,7 +19,7 @@ use std::collections::{HashMap, HashSet};
 use std::fs::{self, canonicalize, create_dir_all, read_link, File, Metadata};
 use std::io::ErrorKind;
 use std::os::unix::fs::MetadataExt;
-use std::path::{Path, PathBuf};
+use std::path::{Component, Path, PathBuf};
 use std::sync::Arc;
 use std::sync::atomic::{AtomicBool, Ordering};
 
@@ -250,10 +250,12 @@ pub fn tree_walker(
             .next_back()
             .ok_or(XcpError::InvalidSource("Failed to find source directory name."))?;
 
-        let target_base = if is_dir(dest)? && !config.no_target_directory {
-            dest.join(sourcedir)
-        } else {
-            dest.to_path_buf()
+        // A source ending in `..` (or `.`, or the root) has no name of
+        // its own to be created in the destination; its contents go
+        // into the destination itself.
+        let target_base = match sourcedir {
+            Component::Normal(name) if is_dir(dest)? && !config.no_target_directory => dest.join(name),
+            _ => dest.to_path_buf(),
         };
         debug!("Target base is {:?}", target_base);
 
